@@ -25,13 +25,14 @@ def filler(n):
 
 OPS = {
     'annAy': (b'peer * announce route 10.0.0.0/24 next-hop 1.1.1.1 med 20\n', ('set', (1, 1, '10.0.0.0', 24), ('1.1.1.1', 20))),
+    'annAz': (b'peer * announce route 10.0.0.0/24 next-hop 1.1.1.1 med 30\n', ('set', (1, 1, '10.0.0.0', 24), ('1.1.1.1', 30))),
     'annD': (b'peer * announce route 10.9.0.0/24 next-hop 2.2.2.2 med 5\n', ('set', (1, 1, '10.9.0.0', 24), ('2.2.2.2', 5))),
     'wdrD': (b'peer * withdraw route 10.9.0.0/24\n', ('del', (1, 1, '10.9.0.0', 24), None)),
     'wdrA': (b'peer * withdraw route 10.0.0.0/24\n', ('del', (1, 1, '10.0.0.0', 24), None)),
     'annD6': (b'peer * announce route 2001:db8:9::/48 next-hop 2001:db8::9\n', ('set', (2, 1, '2001:db8:9::', 48), ('2001:db8::9', None))),
     'wdrB6': (b'peer * withdraw route 2001:db8::/48\n', ('del', (2, 1, '2001:db8::', 48), None)),
 }
-PHASES = ('up1', 'down', 'up2')
+PHASES = ('up1', 'down', 'down2', 'up2')
 
 
 def key(fam):
@@ -54,7 +55,8 @@ def intended(nfill, history, keep):
 
 
 def run_one(args):
-    nfill, keep, cut, history = args
+    nfill, keep, cut, history = args[:4]
+    cut2 = args[4] if len(args) > 4 else None
     cfg = edev.base_config(hold=30, routes=filler(nfill), extra=('group-updates false;' + ('' if keep else ' adj-rib-out false;')))
     viols = []
     with World(cfg) as wd:
@@ -104,14 +106,39 @@ def run_one(args):
         if not first.closed:
             viols.append(('session-not-lost', 'the first connection was cut but ExaBGP never closed it'))
         do_ops('down')
-        # --- session 2
+        if cut2 is not None:
+            # a second attempt which fails during establishment (write budget cut2), then more operations while down
+            failed = None
+            for i in range(30):
+                env.step = 100 + i
+                a = env.default_action()
+                if a.startswith('connect-ok') and failed is None:
+                    s2 = wd.sockets[int(a.split(':')[1])]
+                    if s2 is not first:
+                        failed = s2
+                        failed.cut_after_tx = cut2[1]
+                if failed is not None and failed.closed:
+                    break
+                if a == 'time' and env.fsm() == 'ESTABLISHED':
+                    break
+                env.do(a)
+            if failed is not None and not failed.closed:
+                failed.cut_after_tx = 0
+                failed.feed('EOF')
+                wd.settle()
+                wd.advance(0.2)
+            do_ops('down2')
+            first_sockets = {first.index, failed.index if failed is not None else -1}
+        else:
+            first_sockets = {first.index}
+        # --- the session that is observed
         second = None
         for i in range(40):
             env.step = 20 + i
             a = env.default_action()
             if a.startswith('connect-ok'):
                 s2 = wd.sockets[int(a.split(':')[1])]
-                if s2 is not first and second is None:
+                if s2.index not in first_sockets and second is None:
                     second = s2
             if a == 'time' and env.fsm() == 'ESTABLISHED':
                 break
@@ -226,23 +253,33 @@ def plan(tier):
                 for cut in cuts(nfill):
                     jobs.append((nfill, keep, cut, ()))
         for h in histories(2):
-            if not h:
+            if not h or any(p == 'down2' for p, _ in h):
                 continue
             for cut in (('eof', 0), ('tx', 3), ('tx', 1)):
                 jobs.append((0, True, cut, h))
         for h in histories(1):
-            if h:
+            if h and h[0][0] != 'down2':
                 jobs.append((0, False, ('eof', 0), h))
+        # two losses in a row with operations in between: every phase-ordered sequence of 3 operations on prefix A / D
+        ops3 = ['annAy', 'annAz', 'wdrA', 'annD', 'wdrD']
+        for ops in itertools.product(ops3, repeat=3):
+            for phases in (('down', 'down', 'down2'), ('down', 'down2', 'down2'), ('down', 'down', 'down'), ('down2', 'down2', 'down2')):
+                jobs.append((0, True, ('eof', 0), tuple(zip(phases, ops)), ('tx', 1)))
     else:
         for nfill in (0, 22, 23, 24, 49):
             for keep in (True, False):
                 for cut in cuts(nfill):
                     for h in histories(1):
-                        jobs.append((nfill, keep, cut, h))
+                        if not any(p == 'down2' for p, _ in h):
+                            jobs.append((nfill, keep, cut, h))
         for h in histories(3):
-            if len(h) >= 2:
+            if len(h) >= 2 and not any(p == 'down2' for p, _ in h):
                 for cut in (('eof', 0), ('tx', 3), ('tx', 1), ('rst', 0)):
                     jobs.append((0, True, cut, h))
+        for h in histories(3):
+            if len(h) == 3 and all(p in ('down', 'down2') for p, _ in h):
+                for cut2 in (('tx', 1), ('tx', 2), ('tx', 0)):
+                    jobs.append((0, True, ('eof', 0), h, cut2))
     return jobs
 
 
@@ -259,8 +296,8 @@ def run(ctx: core.Ctx) -> None:
             ctx.count('transitions', nmsg + 1)
             ctx.add_to_set('outcomes', outcome)
             for sig, what in viols:
-                nfill, keep, cut, hist = job
-                ctx.violation(sig, f'[batch {nfill + 2}, adj-rib-out {keep}, cut {cut}, history {hist}] {what}', {'nfill': nfill, 'keep': keep, 'cut': list(cut), 'history': [list(x) for x in hist]})
+                nfill, keep, cut, hist = job[:4]
+                ctx.violation(sig, f'[batch {nfill + 2}, adj-rib-out {keep}, cut {cut}, second failed attempt {job[4] if len(job) > 4 else None}, history {hist}] {what}', {'nfill': nfill, 'keep': keep, 'cut': list(cut), 'history': [list(x) for x in hist], 'cut2': list(job[4]) if len(job) > 4 else None})
             if len(ctx.samples) < 4 and job[3]:
                 ctx.sample({'batch': job[0] + 2, 'adj_rib_out': job[1], 'cut': list(job[2]), 'history': [list(x) for x in job[3]], 'outcome': str(outcome)})
         ctx.counters['states'] = ctx.set_size('outcomes')
@@ -271,5 +308,8 @@ def run(ctx: core.Ctx) -> None:
 
 
 def replay(case):
-    viols, outcome, n = run_one((case['nfill'], case['keep'], tuple(case['cut']), tuple(tuple(x) for x in case['history'])))
+    args = (case['nfill'], case['keep'], tuple(case['cut']), tuple(tuple(x) for x in case['history']))
+    if case.get('cut2'):
+        args = args + (tuple(case['cut2']),)
+    viols, outcome, n = run_one(args)
     return [{'signature': s, 'what': wh} for s, wh in viols]
